@@ -357,6 +357,11 @@ func runFilterCase(c *core.Ctx, lfsBin string, fc *filterCase, idx int) (*core.V
 	if err != nil {
 		return nil, err
 	}
+	// ambient environment is a concretisation-only dimension: every other case runs with a progress
+	// file requested (GIT_LFS_PROGRESS), which gives the copy loops a progress callback
+	if idx%2 == 1 {
+		env.Extra = append(env.Extra, "GIT_LFS_PROGRESS="+filepath.Join(root, "progress.log"))
+	}
 	repo := filepath.Join(root, "repo")
 	if err := env.InitRepo(repo, false); err != nil {
 		return nil, err
